@@ -6,12 +6,15 @@
 open Vx
 open Base
 open C09Model
+open C09BuildModel
 
 let n_of_dec (s : string) : BinNums.coq_N = n_of_int (int_of_string s)
 let z_of_dec (s : string) : BinNums.coq_Z = z_of_int (int_of_string s)
 let dec_of_n n = string_of_int (int_of_n n)
 let dec_of_z z = string_of_int (int_of_z z)
 
+let triple_colon e = match split_on ':' e with
+  | [a; b; c] -> ((n_of_dec a, n_of_dec b), n_of_dec c) | _ -> failwith "stsc entry"
 let csv f s = if s = "-" || s = "" then [] else L.map f (split_on ',' s)
 let ncsv = csv n_of_dec
 
@@ -22,32 +25,66 @@ let res_str (f : 'a -> string) (r : 'a res) : string =
   | Panic -> "panic"
   | OutOfFuel -> "outoffuel"
 
-type built = { tb : tables; cttsb : ctts_box option }
-
 exception Build_err
 
 let get r = match r with Ok a -> a | _ -> raise Build_err
 
-let parse_tables (f : string array) : tables =
-  (* f.(0..6) = stts ctts stsc stsz offsets stss sdtp *)
+(* ---- build plans (harness/c09/plan.go Encode): start state + explicit builder calls ---- *)
+type hist = {
+  ctts_start : ctts_box option;                       (* None: no ctts box *)
+  ctts_rows0 : (BinNums.coq_N * BinNums.coq_Z) list;  (* the decoded rows *)
+  ctts_calls : (BinNums.coq_N list * BinNums.coq_Z list) list;
+  stsc_start : stsc_box;
+  stsc_rows0 : ((BinNums.coq_N * BinNums.coq_N) * BinNums.coq_N) list;
+  stsc_calls : stsc_call list;
+}
+
+let lst f s = if s = "" then [] else L.map f (split_on ',' s)
+let pair_of s = match split_on ':' s with
+  | [c; o] -> (lst n_of_dec c, lst z_of_dec o)
+  | [c] -> (lst n_of_dec c, [])
+  | _ -> failwith "ctts call"
+let triple s = match split_on '.' s with
+  | [a; b; c] -> ((n_of_dec a, n_of_dec b), n_of_dec c) | _ -> failwith "stsc row"
+
+let rec take n l = if n <= 0 then [] else match l with [] -> [] | x :: t -> x :: take (n - 1) t
+
+let parse_plan (p : string) : hist =
+  match split_on ';' p with
+  | [pc; ps; _modes] ->
+    let ctts_start, ctts_rows0, ctts_calls =
+      if pc = "N" then (None, [], []) else
+        match split_on '/' pc with
+        | st :: calls ->
+          let calls = L.map pair_of calls in
+          if st = "E" then (Some ctts_empty, [], calls)
+          else
+            let (c, o) = pair_of (S.sub st 1 (S.length st - 1)) in
+            let rows = L.combine c o in
+            (Some (ctts_decode rows), rows, calls)
+        | [] -> failwith "ctts plan" in
+    let stsc_start, stsc_rows0, stsc_calls =
+      match split_on '/' ps with
+      | st :: calls ->
+        let calls = L.map (fun c ->
+            let rest = S.sub c 1 (S.length c - 1) in
+            if c.[0] = 's' then SSetSingle (n_of_dec rest)
+            else (match triple rest with ((a, b), c) -> SAdd (a, b, c))) calls in
+        if st = "E" then (stsc_empty, [], calls)
+        else
+          let rows = lst triple (S.sub st 1 (S.length st - 1)) in
+          (get (stsc_decode rows), rows, calls)
+      | [] -> failwith "stsc plan" in
+    { ctts_start; ctts_rows0; ctts_calls; stsc_start; stsc_rows0; stsc_calls }
+  | _ -> failwith "plan"
+
+let parse_tables (f : string array) (h : hist) : tables =
+  (* f.(0..6) = stts ctts stsc stsz offsets stss sdtp ; ctts and stsc are BUILT by the history h with the
+     functions the builder theorems are about (ctts_run / stsc_run) *)
   let stts_c, stts_d =
     match split_on ';' f.(0) with [c; d] -> (ncsv c, ncsv d) | _ -> failwith "stts" in
-  let ctts =
-    match split_on ';' f.(1) with
-    | ["N"] -> None
-    | [mode; c; o] ->
-      let cs = ncsv c and os = csv z_of_dec o in
-      if mode = "A" then Some (get (ctts_add { ct_end = []; ct_off = [] } cs os))
-      else Some (ctts_decode (L.combine cs os))
-    | _ -> failwith "ctts" in
-  let stsc =
-    match split_on ';' f.(2) with
-    | [mode; es] ->
-      let raw = csv (fun e -> match split_on ':' e with
-          | [a; b; c] -> ((n_of_dec a, n_of_dec b), n_of_dec c) | _ -> failwith "stsc entry") es in
-      if mode = "A" then get (stsc_add_entries { sc_entries = []; sc_single = N0; sc_ids = [] } raw)
-      else get (stsc_decode raw)
-    | _ -> failwith "stsc" in
+  let ctts = match h.ctts_start with None -> None | Some b -> Some (ctts_run b h.ctts_calls) in
+  let stsc = stsc_run h.stsc_start h.stsc_calls in
   let stsz =
     match split_on ';' f.(3) with
     | [u; n; s] -> { sz_uniform = n_of_dec u; sz_number = n_of_dec n; sz_sizes = ncsv s }
@@ -61,6 +98,12 @@ let parse_tables (f : string array) : tables =
   let opt s = match split_on ';' s with ["N"] -> None | ["Y"; l] -> Some (ncsv l) | _ -> failwith "opt" in
   { t_stts_count = stts_c; t_stts_delta = stts_d; t_ctts = ctts; t_stsc = stsc; t_stsz = stsz;
     t_stco = stco; t_co64 = co64; t_stss = opt f.(5); t_sdtp = opt f.(6) }
+
+(* the file-level tables of the case line *)
+let ctts_rows_of f1 = match split_on ';' f1 with
+  | [_; c; o] -> Some (L.combine (ncsv c) (csv z_of_dec o)) | _ -> None
+let stsc_rows_of f2 = match split_on ';' f2 with
+  | [_; es] -> csv triple_colon es | _ -> failwith "stsc"
 
 let join sep f l = match l with [] -> "-" | _ -> S.concat sep (L.map f l)
 let join0 sep f l = S.concat sep (L.map f l)
@@ -102,20 +145,45 @@ let run_query (tb : tables) (q : string) : string =
   | "gr" -> res_str (join ";" (fun r -> dec_of_n r.r_off ^ "." ^ dec_of_n r.r_size)) (trak_get_ranges tb (a 1) (a 2))
   | _ -> "unknown-query"
 
+(* the cache fields after the first i+1 calls of the history, and the outcome class of call i *)
+let ctts_state (b : ctts_box) = join0 "," dec_of_n b.ct_end ^ "/" ^ string_of_int (L.length b.ct_off)
+let stsc_state (b : stsc_box) =
+  join0 "," (fun e -> dec_of_n e.first_sample) b.sc_entries ^ "/" ^ dec_of_n b.sc_single ^ "/" ^ join0 "," dec_of_n b.sc_ids
+let cls r = match r with Ok _ -> "ok" | Err -> "err" | Panic -> "panic" | OutOfFuel -> "outoffuel"
+
+let trace_token (h : hist) (q : string) : string =
+  let i = int_of_string (S.sub q 2 (S.length q - 2)) in
+  if S.sub q 0 2 = "bc" then
+    match h.ctts_start with
+    | None -> "no-ctts"
+    | Some b0 ->
+      let before = ctts_run b0 (take i h.ctts_calls) in
+      let (c, o) = L.nth h.ctts_calls i in
+      cls (ctts_add before c o) ^ "/" ^ ctts_state (ctts_run b0 (take (i + 1) h.ctts_calls))
+  else
+    let before = stsc_run h.stsc_start (take i h.stsc_calls) in
+    cls (stsc_call_res before (L.nth h.stsc_calls i)) ^ "/" ^ stsc_state (stsc_run h.stsc_start (take (i + 1) h.stsc_calls))
+
 let () =
   if Array.length Sys.argv > 1 && Sys.argv.(1) = "pinned" then pinned := true;
   iter_lines (fun line ->
       match split_on '\t' line with
-      | ["T"; id; kind; f0; f1; f2; f3; f4; f5; f6; obs] ->
+      | ["T"; id; kind; f0; f1; f2; f3; f4; f5; f6; plan; obs] ->
         let toks = split_on ' ' obs in
-        (match (try Some (parse_tables [| f0; f1; f2; f3; f4; f5; f6 |]) with Build_err -> None) with
+        (match (try let h = parse_plan plan in Some (h, parse_tables [| f0; f1; f2; f3; f4; f5; f6 |] h)
+                with Build_err -> None) with
          | None ->
            if L.hd toks = "build=err" then Printf.printf "OK %s\n" id
            else Printf.printf "MISMATCH %s build model=err impl=ok\n" id
-         | Some tb ->
+         | Some (h, tb) ->
            if L.hd toks <> "build=ok" then Printf.printf "MISMATCH %s build model=ok impl=err\n" id
            else if kind = "V" && not (C09Spec.consistent tb) then
              Printf.printf "MISMATCH %s consistent model=false (generator promised a consistent table)\n" id
+           else if kind = "V" && ctts_rows_of f1 <> None
+                   && ctts_rows_of f1 <> Some (L.append h.ctts_rows0 (ctts_table h.ctts_calls)) then
+             Printf.printf "MISMATCH %s ctts_table of the history is not the case's ctts table\n" id
+           else if kind = "V" && stsc_rows_of f2 <> stsc_table h.stsc_rows0 h.stsc_calls then
+             Printf.printf "MISMATCH %s stsc_table of the history is not the case's stsc table\n" id
            else begin
              let bad = ref None in
              L.iter (fun tok ->
@@ -124,7 +192,8 @@ let () =
                    | None -> ()
                    | Some k ->
                      let q = S.sub tok 0 k and r = S.sub tok (k + 1) (S.length tok - k - 1) in
-                     let m = run_query tb q in
+                     let m = if S.length q > 2 && (S.sub q 0 2 = "bc" || S.sub q 0 2 = "bs")
+                       then trace_token h q else run_query tb q in
                      if m <> r then bad := Some (q, m, r))
                (L.tl toks);
              match !bad with
